@@ -142,6 +142,13 @@ pub mod verif {
     use std::sync::{Arc, Mutex};
     type Hook = Arc<dyn Fn(&'static str) + Send + Sync>;
     static HOOK: Mutex<Option<Hook>> = Mutex::new(None);
+    /// Reports `parser.exit` when the parser thread's closure is left (return, end or unwinding).
+    pub struct ExitPoint;
+    impl Drop for ExitPoint {
+        fn drop(&mut self) {
+            point("parser.exit");
+        }
+    }
     /// Install (or remove) the callback.
     pub fn set_hook(h: Option<Hook>) {
         *HOOK.lock().unwrap() = h;
@@ -266,6 +273,8 @@ impl DebuggerContext {
 
         let rsender = sender.clone();
         thread::spawn(move || {
+            #[cfg(pest_parser_pest_verif)]
+            let _exit = verif::ExitPoint;
             let vm = Vm::new_with_listener(
                 ast,
                 Box::new(move |rule, pos| {
